@@ -147,6 +147,7 @@ pub struct ZState {
     pub leaked_k: i64,
     pub leaked_v: i64,
     pub used: bool,
+    pub no_leak_check: bool,
 }
 
 impl ZState {
@@ -161,6 +162,7 @@ impl ZState {
             leaked_k: 0,
             leaked_v: 0,
             used: false,
+            no_leak_check: false,
         }
     }
 }
@@ -615,7 +617,7 @@ impl<F: Fam> Ctx<F> {
             z.set = ZSet::with_hasher(vh);
         })?;
         let (k, v) = z_live();
-        if k != self.z.leaked_k || v != self.z.leaked_v {
+        if !self.z.no_leak_check && (k != self.z.leaked_k || v != self.z.leaked_v) {
             fail!(self, [C06], "leak", "zero-sized elements: {} key(s) and {} value(s) alive after everything was dropped ({} / {} may leak through forgotten iterators)", k, v, self.z.leaked_k, self.z.leaked_v);
         }
         Ok(())
